@@ -50,6 +50,27 @@ def make_configs(r, n):
                 opts[opts.index('--strategy') + 1] = r.choice(
                     ['hierarchical', 'hybrid'])
                 meta['strategy'] = opts[opts.index('--strategy') + 1]
+        if i % 4 == 2:
+            # parallel ddmin with several successes per batch that complete
+            # out of order: many top-level commands (more than 2 x jobs
+            # subsets), a permissive command, widely varying check times
+            na = r.choice([14, 18, 24])
+            text = ('(set-logic QF_LIA)\n' +
+                    ''.join(f'(declare-const x{k} Int)\n' for k in range(4)) +
+                    ''.join(f'(assert (> x{k % 4} {k + 100}))\n'
+                            for k in range(na)) + '(check-sat)\n')
+            # every third assert must stay: coarse subsets fail, the fine
+            # (parallel) granularities have many independent successes
+            off = r.randrange(3)
+            keep = [str(100 + k) for k in range(na) if k % 3 == off]
+            spec.clear()
+            spec.update({'mode': 'contains', 'markers': ['check-sat'] + keep,
+                         'delay_ms': r.choice([25, 40]),
+                         'delay_seed': r.randint(0, 10**6)})
+            st = r.choice(['ddmin', 'hybrid'])
+            opts[opts.index('--strategy') + 1] = st
+            meta['strategy'] = st
+            cfgs[i] = (text, spec, opts, meta)
     return cfgs
 
 
